@@ -428,6 +428,10 @@ def _check_state(tag, nodes_list, edges_list, tree, deps, input_consumers, sep, 
             if end not in declared:
                 raise Violation("c20.edge_endpoint_undeclared", f"[{tag}] edge {e['source']} -> {e['target']} ({e['data'].get('edgeType')}) ends at {end!r}, which is not a node of this state", end="source" if end == e["source"] else "target")
     drawn = [e for e in edges_list if e["source"] in vis and e["target"] in vis]
+    for e in edges_list:
+        if e["data"].get("edgeType") == "end" and e["source"] not in vis and e["source"] not in HIDDEN[0]:
+            # (the gate itself is folded away in this state; an END edge is drawn from a gate one can see)
+            raise Violation("c20.edge_from_invisible_node", f"[{tag}] END edge from {e['source']}, which is not a visible node of this state", dep="end")
 
     def reps(path):
         if path == "__end__":
